@@ -85,7 +85,7 @@ def harnesses(tier, seed, active_kf=()):
         pats = list(dict.fromkeys(pats))
     k = 3.0 if tier == "thorough" else 1.0
     for i, p in enumerate(pats):
-        covers = COVER.get(p, ("drew",))
+        covers = COVER.get(p, ("drew",) if p in SUPPORTED else ())
         out.append(mk("C09.gen.%03d" % i, TAPE, GEN.format(pat=p), covers=covers, pre=TPRE, timeout=90 * k, functions=FUNCS,
                       bounds=BOUNDS, meta={"pattern": p}, cover_timeout=60))
     for i, p in enumerate(["a.c", r"[^#\d]x", "(ab|c)+", "^a*$", r"\d{2}-\w"]):
